@@ -4,7 +4,7 @@
 #define M4SIM_SCHED_H
 #include "sim.h"
 
-#define SCHED_MAXTASK 64
+#define SCHED_MAXTASK 320 /* 1 + 15 + 16*15 tasks for two nested levels of 16-thread teams, plus slack */
 enum { YC_ACCESS = 0, YC_FUNC, YC_HEAP, YC_RUNTIME, YC_CRITICAL, YC_NCLASS };
 
 typedef struct {
